@@ -4,7 +4,7 @@
    gives those shapes their meaning. *)
 From PL Require Export Data.Decimal.
 From Coq Require Import String.
-Open Scope Z_scope.
+Local Open Scope Z_scope.
 
 Inductive binop := OpAdd | OpSub | OpMul | OpDiv | OpRem.
 (* Checked = i64::checked_op (None on overflow / division by zero);
